@@ -9,7 +9,9 @@
 (* stated with the DECLARATIVE ones (Pos, SliceSet) and never looks at     *)
 (* what an action computed on its way.                                     *)
 (*                                                                         *)
-(* A behaviour is: 1..MaxW writes, then the full set of reads (ReadAll).   *)
+(* A behaviour is: MaxW writes, then a set of reads chosen by the model-    *)
+(* checking module (ReadAll); the full set is every label on every         *)
+(* variable and every (start, stop, step).                                 *)
 (***************************************************************************)
 EXTENDS Span, TLC
 
